@@ -332,8 +332,15 @@ pub mod thread {
 
         #[track_caller]
         pub fn unpark(&self) {
-            self.check("Thread::unpark");
-            self.notify.notify();
+            // Alive when we start, a scheduling point that conflicts with the handle's destruction (as in
+            // `clone`), and still alive while it is being used: a handle that lives in another thread's
+            // frame may be destroyed between the caller's last synchronisation and this call.
+            let id = unsafe { ::std::ptr::read_volatile(&self.live) };
+            live::check(id, "Thread::unpark");
+            let (sched, notify) = (self.sched.clone(), self.notify.clone());
+            sched.load(::std::sync::atomic::Ordering::Acquire);
+            live::check(id, "Thread::unpark (the handle was destroyed while it was being used)");
+            notify.notify();
         }
     }
 
